@@ -239,6 +239,8 @@ type Lexer struct {
 	// values at this point; natively a no-op). Used for table encodings whose lookups are data-dependent
 	// array accesses rather than comparisons.
 	Concretize bool
+	// ValueOf, when set, supplies the semantic value of a token (default: the token's index).
+	ValueOf func(tok int32, index int) interface{}
 }
 
 func (l *Lexer) InitTokens(toks []int32) {
@@ -274,7 +276,12 @@ func (l *Lexer) Pos() (start, end int) {
 func (l *Lexer) Line() int          { return 1 }
 func (l *Lexer) Column() int        { return 1 + 2*l.cur }
 func (l *Lexer) Text() string       { return "" }
-func (l *Lexer) Value() interface{} { return l.cur }
+func (l *Lexer) Value() interface{} {
+	if l.ValueOf != nil && l.cur < len(l.toks) {
+		return l.ValueOf(l.toks[l.cur], l.cur)
+	}
+	return l.cur
+}
 func (l *Lexer) Copy() Lexer        { return *l }
 `
 }
